@@ -1,4 +1,5 @@
 """C17 Unique-table hash set"""
+import ecount
 import eraw
 
 LEVEL = "E-RAW"
@@ -15,4 +16,7 @@ def run(ctx):
                 "necessary conditions of `free <= #FREE slots`, on which termination of every lookup rests.")
     eraw.run(ctx, F)
     ctx.floor("E-RAW", "free-counter writers checked", ctx.rule_counts.get("E-RAW.inventory", [0])[0], 6)
+    ctx.explain("E-COUNT.underflow: no unsigned local that starts at the literal 0 is only ever decremented (it would underflow at its "
+                "first update); detector checked against a built-in positive example on every run.")
+    ecount.run(ctx, F, ('linear_hashtbl',))
     ctx.not_decided = "set semantics over operation sequences, iteration exactness, retain's predicate semantics"
